@@ -111,7 +111,7 @@ NOT_BUILT = {}
 # additions made after the first build (seeded waves 3-5); appended to `text`
 ADDENDA = {
  "C19": " The T / M extension records of the tutorial (two reference fields), cloned in a process of its own.",
- "C18": " Lines produced by gfapy (merged segments, copies of multiply, converted lines, clones) obey the level of their Gfa. A new tag on a copy, then a tag of that name and another type on another line, is accepted at every level.",
+ "C18": " Lines produced by gfapy (merged segments, copies of multiply, converted lines, clones) obey the level of their Gfa. A new tag on a copy, then a tag of that name and another type on another line, is accepted at every level. Positions with begin == end (empty interval) on F lines are valid at every level.",
  "C10": " Ordered groups that begin with, or list later, an edge walked backwards.",
  "C01": " Tags named like a predefined tag of the other version or like a field alias (LN on a GFA2 segment); custom record types of several letters before / after the version is known.",
  "C02": " Also: the same search from the fully loaded universes (`@full`, depth 3 quick / 4 thorough), and lines that are refused only after their first references were resolved, offered in every state in which they are refused. Operations that name an unnamed link / containment and delete its ID; continuation lines of a multi-line group that add, then contradict a tag; removed Line objects added again. Operation conv over a convertible GFA1 universe (to_gfa2_s assigns IDs to the unnamed links of the source, which must stay closed, symmetric and found under those IDs); operation addshare (a line built through the API whose field value is the very object another line holds; the state key tells shared objects from equal values); a model-free namespace-coherence clause.",
@@ -124,7 +124,7 @@ ADDENDA = {
  "C09": " Also from the fully loaded universes; a path over an ID-tagged link (placeholder link replaced by a link whose ID may be in use); delete of the ID tag. An accepted operation that the model leaves open must still leave a coherent namespace (model-free check, also for replaced lines); `*` as value of the ID tag; a further line of a group that another group lists. Also searched from a state in which a placeholder segment survives only because a group lists the identifier.",
  "C11": " Post-operations `refused` (line refused after its first side was resolved) and `in-out` (line over placeholders added and removed). Post-operations rm-line (the judged edge removed by instance) and a path over the judged link arriving before / after it.",
  "C12": " Family twopaths: two paths walking one link in opposite directions, link written in either form, segments bare or with sequence/tags, all arrival orders, complement of the stored link taken after every arrival. The algebra / graph / twopaths families again at validation levels 0 and 3.",
- "C13": " Entry points `clones` (cloned Line objects) and `carry` (refused lines dropped, the caller carries on: what the Gfa holds must be a document of the version it reports). carry also at level 0 with the exactly-once clause only.",
+ "C13": " Entry points `clones` (cloned Line objects) and `carry` (refused lines dropped, the caller carries on: what the Gfa holds must be a document of the version it reports). carry also at level 0 with the exactly-once clause only; level 0 x entry list (thorough: list, inc) for every multiset without a VN header (mixed content is refused with VersionError at level 0 too).",
  "C14": " The families again at validation levels 0/2/3; GFA2 twins with the sides of the E lines exchanged and with identical parallel E lines. One probe graph per IUPAC letter and case on a segment that is reverse-complemented; GFA2 decorations (one read with fragments on several segments, header, comment, custom record). Segment variant with LN on some sequence-carrying segments only.",
  "C15": " Links / containments with ID tags; opposite-direction parallel links with I/D overlaps; the graph is judged as built. After the operation a new tag on a copy and a tag of that name and another type on the original are independent.",
  "C16": " Also from the fully loaded graph-shaped universes (`@full`); refused operations are judged; a query that raises on a well-formed document is a violation. A model-free namespace-coherence clause on every accepted operation; a second containment edge in the GFA2 universe.",
